@@ -411,6 +411,63 @@ def x_python(report):
             f"def loaderCopies : Bool := {lean_bool(copies)}\n")
 
 
+def x_text_layer(report):
+    """pins for the JSON text / compression layer (Model/JsonText.lean): third-party behaviour is modelled for
+    these major versions and feature sets only; the HyperLogLog record and what load_signatures does with it"""
+    lock = read("Cargo.lock")
+    vers = {}
+    for name in ("serde_json", "niffler", "flate2"):
+        m = re.search(r'name = "' + name + r'"\nversion = "([0-9.]+)"', lock)
+        if not m:
+            raise Unrecognised("Cargo.lock", name + " not found")
+        vers[name] = m.group(1)
+    if not vers["serde_json"].startswith("1."):
+        raise Unrecognised("serde_json", "major version changed: " + vers["serde_json"])
+    if not vers["niffler"].startswith("2."):
+        raise Unrecognised("niffler", "major version changed: " + vers["niffler"])
+    toml = read("src/core/Cargo.toml")
+    m = re.search(r'^niffler = \{ version = "[^"]*", default-features = false, features = \[([^\]]*)\] \}', toml, re.M)
+    if not m:
+        raise Unrecognised("niffler", "dependency line in src/core/Cargo.toml not recognised")
+    feats = sorted(x.strip().strip('"') for x in m.group(1).split(",") if x.strip())
+    if feats != ["gz"]:
+        raise Unrecognised("niffler", f"compiled-in compression formats changed: {feats} (the model refuses all but gz)")
+    if re.search(r'^serde_json = \{[^\n]*features', toml, re.M):
+        raise Unrecognised("serde_json", "features enabled (arbitrary_precision / float_roundtrip / unbounded_depth change what is accepted)")
+    hll = strip_rust_comments(read("src/core/src/sketch/hyperloglog/mod.rs"))
+    m = re.search(r"pub struct HyperLogLog \{(.*?)\}", hll, re.S)
+    if not m or norm(m.group(1)) != "registers: Vec<CounterType>, p: usize, q: usize, ksize: usize,":
+        raise Unrecognised("struct HyperLogLog", "fields changed")
+    if not re.search(r"#\[derive\([^)]*Deserialize[^)]*\)\]\s*(#\[cfg_attr\(.*?\)\]\s*)?pub struct HyperLogLog", hll, re.S):
+        raise Unrecognised("struct HyperLogLog", "no longer derives Deserialize")
+    est = read("src/core/src/sketch/hyperloglog/estimators.rs")
+    if not re.search(r"pub type CounterType = u8;", est):
+        raise Unrecognised("CounterType", "no longer u8")
+    sig = strip_rust_comments(read("src/core/src/signature.rs"))
+    body = rust_fn_body(sig, "load_signatures")
+    if len(re.findall(r"Sketch::HyperLogLog\(_\) => unimplemented!\(\),", body)) != 1:
+        raise Unrecognised("load_signatures", "HyperLogLog arm is no longer a single `unimplemented!()`")
+    sk = strip_rust_comments(read("src/core/src/sketch/mod.rs"))
+    if not re.search(r"pub enum Sketch \{\s*MinHash\(KmerMinHash\),\s*LargeMinHash\(KmerMinHashBTree\),\s*HyperLogLog\(HyperLogLog\),\s*\}", sk):
+        raise Unrecognised("enum Sketch", "variants or their order changed")
+    ffi = strip_rust_comments(read("src/core/src/ffi/signature.rs"))
+    pb = tok(rust_fn_body(ffi, "signatures_load_path")).replace(" ", "")
+    bb = tok(rust_fn_body(ffi, "signatures_load_buffer")).replace(" ", "")
+    if "let(mutinput,_)=niffler::from_path(buf.to_str()?)?;" not in pb or "niffler" in bb:
+        raise Unrecognised("signatures_load_path/_buffer", "where niffler is applied changed (path: from_path + from_reader, buffer: from_reader only)")
+    fr = tok(rust_fn_body(sig, "from_reader")).replace(" ", "")
+    if fr != "let(rdr,_format)=niffler::get_reader(Box::new(rdr))?;letsigs:Vec<Signature>=serde_json::from_reader(rdr)?;Ok(sigs)":
+        raise Unrecognised("Signature::from_reader", "body changed: " + fr[:200])
+    report["outputs"]["sigjson_text_layer"] = dict(vers, niffler_features=feats)
+    return ("\n/-- third-party versions the JSON text / compression layer is modelled for (Cargo.lock) -/\n"
+            f"def serdeJsonVersion : String := {lean_str(vers['serde_json'])}\n"
+            f"def nifflerVersion : String := {lean_str(vers['niffler'])}\n"
+            f"def flate2Version : String := {lean_str(vers['flate2'])}\n"
+            "/-- niffler is compiled with the gz feature only -/\n"
+            "def nifflerGzOnly : Bool := true\n")
+
+
 EXTRACTORS = [("sigjson_serialize", x_serialize), ("sigjson_deserialize", x_deserialize),
               ("sigjson_encodings", x_encodings), ("sigjson_signature_struct", x_signature_struct),
-              ("sigjson_load_filter", x_load_filter), ("sigjson_python", x_python)]
+              ("sigjson_load_filter", x_load_filter), ("sigjson_python", x_python),
+              ("sigjson_text_layer", x_text_layer)]
